@@ -350,6 +350,46 @@ theorem order_indep (lex : Name → Lex) (st : St) (hw : WF st) (items items' : 
     | panic s => rw [h2] at g2; exact g2
   | panic s => rw [h1] at g1; exact g1
 
+/-- every library of a sequence reordered (each at any level) -/
+inductive ShuffleAll : List Items → List Items → Prop
+  | nil : ShuffleAll [] []
+  | cons {l l' : Items} {ls ls' : List Items} : Shuffle l l' → ShuffleAll ls ls' → ShuffleAll (l :: ls) (l' :: ls')
+
+/-- T4 over sequences of adds on one runtime: reordering the items of every
+    library of the sequence (each at any level) changes nothing — both sequences
+    fail, or both succeed with the same runtime. -/
+theorem order_indep_sequence (lex : Name → Lex) :
+    ∀ (libs libs' : List Items) (st : St), WF st → ShuffleAll libs libs' →
+      match registerAll lex st libs, registerAll lex st libs' with
+      | .ok a, .ok b => a = b
+      | .err _, .err _ => True
+      | _, _ => False
+  | [], _, st, _, h => by cases h; simp [registerAll]
+  | l :: ls, _, st, hw, h => by
+    cases h with
+    | cons h1 hs =>
+      rename_i l' ls'
+      have o := order_indep lex st hw l l' h1
+      have g := add_no_panic lex st hw l
+      simp only [registerAll]
+      cases hr : register Cfg.fixed lex st l with
+      | ok a =>
+        rw [hr] at o g
+        cases hr' : register Cfg.fixed lex st l' with
+        | ok b =>
+          rw [hr'] at o
+          subst o
+          exact order_indep_sequence lex ls ls' a g.2 hs
+        | err e => rw [hr'] at o; exact o.elim
+        | panic s => rw [hr'] at o; exact o.elim
+      | err e =>
+        rw [hr] at o
+        cases hr' : register Cfg.fixed lex st l' with
+        | ok b => rw [hr'] at o; exact o.elim
+        | err e' => trivial
+        | panic s => rw [hr'] at o; exact o.elim
+      | panic s => rw [hr] at g; exact g.elim
+
 /-! ## witnesses -/
 
 def lexV : Name → Lex := fun _ => ⟨some (some .ident), false, true⟩
@@ -516,6 +556,13 @@ example :
 example :
     (register Cfg.fixed lexV st0 (il [fn0 1 5, .impl 7 .nil])).isErr = true ∧
     (register Cfg.fixed lexV st0 (il [.impl 7 .nil, fn0 1 5])).isErr = true := by decide
+
+/-- non-vacuity of `order_indep_sequence`: two adds, the second uses a type of the first -/
+example : ShuffleAll [il [.type 1 7, fn0 2 5], il [.impl 7 (il [fn0 3 6]), fn0 4 8]]
+    [il [fn0 2 5, .type 1 7], il [fn0 4 8, .impl 7 (il [fn0 3 6])]] :=
+  .cons (.swap _ _ _) (.cons (.swap _ _ _) .nil)
+example : (registerAll lexV st0 [il [.type 1 7, fn0 2 5], il [.impl 7 (il [fn0 3 6]), fn0 4 8]]).isOk = true := by
+  decide
 
 /-- non-vacuity of `reachable_nowhere_else` / `tables_hold_exactly`: what the library declares -/
 example : (Declared lexV st0 libImpl).map (·.1) =
